@@ -282,3 +282,5 @@ def run(ctx):
     from . import c04
     ctx.run_rule("R1.8", "a Matched record is only as good as Rule::matches: per Rule impl the line reaches the whole-line comparator through the documented transforms only (shared with C04 R4.2) [E-FLOW]", c04.r4_2, floor=8)
     ctx.run_rule("R1.9", "the compared text is the line without its line feed(s) only: trim_newlines / ends_in_newline name no character but `\\n` and call no whitespace trimming [E-TABLE of constants]", r1_9, floor=3)
+    from . import c02
+    ctx.run_rule("R1.10", "what has_differences looks at is everything DiffTool::diff recorded: Diff::new keeps every record (shared with C02 R2.6) [E-FLOW]", c02.r2_6, floor=1)
